@@ -240,9 +240,11 @@ def analyse(scenario, result):
                                  'stop-all was requested started afterwards'))
         elif running_at_stop_all:
             pass        # it was the current job by then: stopped, not cleared
-        elif landed == 'after-job-finished' and stop_kind in (
-                'stop_current', 'agent_stop') and second_start is not None \
-                and second_start < stop_ret:
+        elif stop_kind in ('stop_current', 'agent_stop') and (
+                next((e[4] for e in log if e[3] == 'stop-target'), None)
+                == 'second' or (landed == 'after-job-finished'
+                                and second_start is not None
+                                and second_start < stop_ret)):
             # the first job was over: the request legitimately hit the job
             # behind it, which was the current one by then
             labels.append('stop-hit-second-job')
